@@ -58,6 +58,18 @@ pub fn drivers(spec: SpecId) -> Vec<Driver> {
         Driver { case: blocks::fan_in(spec), stale_keys: vec![] },
         Driver { case: blocks::funding_chain(spec, 2), stale_keys: vec![] },
     ];
+    // the fee recipient is a contract with code and storage that nobody calls: its record is loaded
+    // up front, its code and slots are not
+    {
+        let mut c = blocks::incr_same_slot(spec, 2);
+        let mut db = (*c.db).clone();
+        db.deploy(contract(30), kit::vault());
+        db.set_storage(contract(30), 0, 5);
+        c.db = std::sync::Arc::new(db);
+        c.env.beneficiary = contract(30);
+        c.name = "coinbase-is-contract".into();
+        v.push(Driver { case: c, stale_keys: vec![] });
+    }
     // block-hash reads
     let mut db = MemDb::default();
     blocks::rich(&mut db, 2);
@@ -251,6 +263,25 @@ pub fn jobs(tier: Tier) -> Vec<Job> {
             if !in_order.contains(k) {
                 keys.push((k.clone(), false));
             }
+        }
+        // ... and every other key of the pre-state (account records, storage slots, code bodies,
+        // the beneficiary's included): "for every database key". Nothing in-order execution does
+        // reads them, so a fault on them must stay invisible (seeded change C04c preloaded the fee
+        // recipient's bytecode up front). One worker count, persistent faults.
+        let mut unread: Vec<DbKey> = Vec::new();
+        for (a, acc) in &d.case.db.accounts {
+            unread.push(DbKey::Basic(*a));
+            for slot in acc.storage.keys() {
+                unread.push(DbKey::Storage(*a, *slot));
+            }
+        }
+        for h in d.case.db.codes.keys() {
+            unread.push(DbKey::Code(*h));
+        }
+        unread.retain(|k| !in_order.contains(k) && !d.stale_keys.contains(k));
+        for key in unread {
+            let plan = FaultPlan { key: Some(key), mode: FaultMode::Persistent };
+            v.push(fault_job(&d, plan, false, 2, COARSE, 1, false));
         }
         let stale_driver = !d.stale_keys.is_empty();
         for (key, in_order_key) in keys {
